@@ -4,6 +4,7 @@ import (
 	"fmt"
 	"go/token"
 	"go/types"
+	"regexp"
 	"sort"
 	"strconv"
 	"strings"
@@ -58,9 +59,10 @@ type Addr struct {
 // ---------------------------------------------------------------- state
 
 type State struct {
-	pc   string
-	heap map[string]string
-	dead bool
+	pc     string
+	heap   map[string]string
+	dead   bool
+	locals map[string]Val // source-level local variables (from DebugRef / named phis), flow-sensitive
 }
 
 func (s *State) clone() *State {
@@ -68,7 +70,33 @@ func (s *State) clone() *State {
 	for k, v := range s.heap {
 		n.heap[k] = v
 	}
+	if s.locals != nil {
+		n.locals = make(map[string]Val, len(s.locals))
+		for k, v := range s.locals {
+			n.locals[k] = v
+		}
+	}
 	return n
+}
+
+func (s *State) setLocal(name string, v Val) {
+	if s.locals == nil {
+		s.locals = map[string]Val{}
+	}
+	s.locals[name] = v
+}
+
+func sameVal(a, b Val) bool {
+	if (a.Sl == nil) != (b.Sl == nil) {
+		return false
+	}
+	if a.Sl != nil {
+		return *a.Sl == *b.Sl
+	}
+	if a.Sort == "addr" || b.Sort == "addr" {
+		return a.Sort == b.Sort && a.Addr != nil && b.Addr != nil && a.Addr.Ref == b.Addr.Ref && a.Addr.Kind == b.Addr.Kind && a.Addr.Comp == b.Addr.Comp && len(a.Addr.Path) == len(b.Addr.Path)
+	}
+	return a.T == b.T && len(a.Tuple) == len(b.Tuple)
 }
 
 // ---------------------------------------------------------------- obligations
@@ -113,6 +141,7 @@ type VC struct {
 	strLits   map[string]bool
 	nextC     string // name of allocation counter component
 	uses      map[string]bool // contracts used (assumed) at call sites
+	sliceUFs  [][2]string     // uninterpreted functions of one slice: (name, row sort)
 }
 
 func newVC(eng *Engine, fn *ssa.Function, spec *FuncSpec) *VC {
@@ -262,8 +291,16 @@ func (vc *VC) sortOf(t types.Type) string {
 	return "Int"
 }
 
+var aliasRe = regexp.MustCompile(`\b(byte|rune)\b`)
+
 func typeKey(t types.Type) string {
 	s := types.TypeString(t, func(p *types.Package) string { return p.Name() })
+	s = aliasRe.ReplaceAllStringFunc(s, func(m string) string {
+		if m == "byte" {
+			return "uint8"
+		}
+		return "int32"
+	})
 	return sanitize(s)
 }
 
@@ -535,6 +572,9 @@ func (vc *VC) set(st *State, comp, term string) {
 
 func (vc *VC) havoc(st *State, comp string) string {
 	n := vc.freshConst(comp, vc.compSort[comp])
+	if comp == "$next" { // the allocation counter only grows
+		vc.emit(fmt.Sprintf("(assert (>= %s %s))", n, vc.get(st, comp)))
+	}
 	st.heap[comp] = n
 	return n
 }
@@ -602,6 +642,22 @@ func (vc *VC) merge(edges []edgeIn, label string) *State {
 		return s
 	}
 	out := &State{heap: map[string]string{}}
+	// locals: keep the bindings all incoming edges agree on (others are re-bound by named phis)
+	if edges[0].st.locals != nil {
+		out.locals = map[string]Val{}
+		for k, v := range edges[0].st.locals {
+			same := true
+			for _, e := range edges[1:] {
+				if w, ok := e.st.locals[k]; !ok || !sameVal(v, w) {
+					same = false
+					break
+				}
+			}
+			if same {
+				out.locals[k] = v
+			}
+		}
+	}
 	var conds []string
 	for _, e := range edges {
 		conds = append(conds, e.cond)
@@ -668,13 +724,31 @@ func (vc *VC) mergeVals(conds []string, vals []Val, t types.Type, label string) 
 		return out
 	}
 	if _, ok := t.Underlying().(*types.Slice); ok {
-		sl := &SliceVal{vc.freshConst(label+".arr", "Int"), vc.freshConst(label+".off", "Int"), vc.freshConst(label+".len", "Int"), vc.freshConst(label+".cap", "Int")}
-		for i, v := range vals {
-			s := v.Sl
-			if s == nil {
-				s = &SliceVal{"0", "0", "0", "0"}
+		get := func(v Val) *SliceVal {
+			if v.Sl == nil {
+				return &SliceVal{"0", "0", "0", "0"}
 			}
-			vc.emit(fmt.Sprintf("(assert (=> %s (and (= %s %s) (= %s %s) (= %s %s) (= %s %s))))", conds[i], sl.Arr, s.Arr, sl.Off, s.Off, sl.Len, s.Len, sl.Cap, s.Cap))
+			return v.Sl
+		}
+		// components on which all edges agree syntactically are kept (in particular a literal offset 0)
+		pick := func(f func(*SliceVal) string, name string) string {
+			first := f(get(vals[0]))
+			for _, v := range vals[1:] {
+				if f(get(v)) != first {
+					n := vc.freshConst(label+"."+name, "Int")
+					for i, w := range vals {
+						vc.emit(fmt.Sprintf("(assert (=> %s (= %s %s)))", conds[i], n, f(get(w))))
+					}
+					return n
+				}
+			}
+			return first
+		}
+		sl := &SliceVal{
+			Arr: pick(func(s *SliceVal) string { return s.Arr }, "arr"),
+			Off: pick(func(s *SliceVal) string { return s.Off }, "off"),
+			Len: pick(func(s *SliceVal) string { return s.Len }, "len"),
+			Cap: pick(func(s *SliceVal) string { return s.Cap }, "cap"),
 		}
 		return Val{Sl: sl, Typ: t}
 	}
